@@ -1,11 +1,12 @@
 """C13 — replaced content: sizing rules, painted rectangle, embedded once."""
-from extract import raster_embed_graph, replaced_consts, svg_not_inherited
+from extract import image_inherited, raster_embed_graph, replaced_consts, svg_not_inherited
 from harness import c13_branches
 from harness import c13_docs
 from harness import c13_embed
 from harness import c13_svg
 from harness import c13_exec
 from harness import c13_oracle
+from harness import c13_r4
 from harness import c13_real as real
 from harness import docs
 from vlib.framework import PropCheck
@@ -13,7 +14,8 @@ from vlib.framework import PropCheck
 
 class C13(PropCheck):
     id = 'C13'
-    extractors = (replaced_consts.generate, raster_embed_graph.generate, svg_not_inherited.generate)
+    extractors = (replaced_consts.generate, raster_embed_graph.generate, svg_not_inherited.generate,
+                  image_inherited.generate)
     modules = ('WpModel.Props.C13', 'WpModel.Props.C13b', 'WpModel.Witness.C13')
     trusted_base = (
         'modelled, not verified: layout/replaced.py (all functions), min_max.py decorators, block_level_width, '
@@ -48,7 +50,8 @@ class C13(PropCheck):
             'regressions', 'corpus first: the inputs of the repaired findings (fixed: lines of known_findings.txt) '
             'run on the real code through the ordinary protocol lines (absolute_replaced in a rendered document, '
             'rotate_pillow_image, get_image_from_uri on unwritable modes, preserve_ratio under an ancestor with '
-            'preserveAspectRatio, layout_background_layer with a zero-sized round tile); a repaired defect that '
+            'preserveAspectRatio, layout_background_layer with a zero-sized round tile, image-resolution 0dppx / -1dppx in '
+            'the validator and in a rendered document); a repaired defect that '
             'comes back is a disagreement judged by the oracle; non-trivial = all')
         for line, out, meta, nontrivial, tags in self.regression_cases():
             sec.add(line, out, meta=meta, nontrivial=nontrivial, tags=tags)
@@ -159,6 +162,29 @@ class C13(PropCheck):
                 sec.add(line, out, meta=meta, nontrivial=nontrivial, tags=tags)
 
         sec = section(
+            'style-plumbing', 'the real image-resolution validator on generated declarations (units, zero, negative, '
+            'non-resolutions); the real layout_backgrounds on a real PageBox > root (html / HTML / svg) > (head,) body with '
+            'raster stubs whose intrinsic size depends on the resolution asked, the three styles differing in every '
+            'background property and in image-resolution: which element is propagated to the canvas and the layers '
+            'of page.canvas_background; rendered documents with backgrounds and image-resolution on html / body: the '
+            'canvas layer of the real page box; sequences of real get_image_from_uri calls on one cache (sources x '
+            'image-orientation x optimize_images / jpeg_quality / dpi): classes of equal RasterImage.id and of '
+            'identical objects; non-trivial = a resolution unit / a canvas background exists / one source under two '
+            'orientations')
+        for k in range(run.n(800, 16000)):
+            line, out, meta, nontrivial, tags = c13_r4.case_image_resolution(rng, adversarial=(k % 4 == 0))
+            sec.add(line, out, meta=meta, nontrivial=nontrivial, tags=tags)
+        for k in range(run.n(1200, 24000)):
+            line, out, meta, nontrivial, tags = c13_r4.case_canvas(rng, adversarial=(k % 4 == 0))
+            sec.add(line, out, meta=meta, nontrivial=nontrivial, tags=tags)
+        for k in range(run.n(60, 1200)):
+            line, out, meta, nontrivial, tags = c13_r4.case_canvas_document(rng)
+            sec.add(line, out, meta=meta, nontrivial=nontrivial, tags=tags)
+        for k in range(run.n(500, 10000)):
+            line, out, meta, nontrivial, tags = c13_r4.case_image_ids(rng, adversarial=(k % 3 == 0))
+            sec.add(line, out, meta=meta, nontrivial=nontrivial, tags=tags)
+
+        sec = section(
             'documents', 'generated documents: 1-4 <img>/<object>/<embed> (inline or block, ltr/rtl) showing '
             'Pillow-made PNGs with width/height/min/max in {auto,px,%}, every object-fit, object-position, '
             'image-resolution, image-rendering, opacity, and 0-2 boxes with a background image (size/position/repeat/'
@@ -173,6 +199,12 @@ class C13(PropCheck):
             for line, out, meta, nontrivial, tags in c13_docs.case_document(rng):
                 sec.add(line, out, meta=meta, nontrivial=nontrivial, tags=tags)
 
+        for k in range(run.n(60, 1200)):
+            # list-style-image: markers inside / outside, image-resolution inherited from the list, image-orientation
+            # on ::marker, the same source also used by an <img>
+            for line, out, meta, nontrivial, tags in c13_r4.case_marker_document(rng):
+                sec.add(line, out, meta=meta, nontrivial=nontrivial, tags=tags)
+
         import collections
         total = collections.Counter()
         for sec in run.sections:
@@ -185,6 +217,8 @@ class C13(PropCheck):
         if d['line'].startswith('docok') and d['impl'] != 'ok' and 'doc' in meta:
             # the generated document no longer reads back as designed: state the property on it again
             return c13_docs.judge_document(meta['doc'])
+        if d['line'].startswith('docok') and d['impl'] != 'ok' and 'marker_doc' in meta:
+            return c13_r4.judge_marker_document(meta['marker_doc'])
         return c13_oracle.judge(d['line'], d['impl'])
 
     def search(self, run, failures):
@@ -202,7 +236,7 @@ class C13(PropCheck):
             if f['kind'] != 'correspondence':
                 continue
             line = f['detail']['line']
-            out = c13_exec.execute(line)
+            out = c13_exec.execute(line) or c13_r4.execute(line)
             run.search_stats['evaluations'] += 1
             if out is not None:
                 what = c13_oracle.judge(line, out)
@@ -211,7 +245,8 @@ class C13(PropCheck):
         cases = (real.case_default_sizing, real.case_constraint, real.case_replacedbox_layout,
                  real.case_used_size, real.case_absolute_replaced, real.case_dedupe, real.case_raster_draw,
                  real.case_draw_replacedbox, real.case_svg_intrinsic, c13_embed.case_embed, real.case_pref_width,
-                 c13_embed.case_orientation, c13_embed.case_orientation_angle, c13_embed.case_png_data)
+                 c13_embed.case_orientation, c13_embed.case_orientation_angle, c13_embed.case_png_data,
+                 c13_r4.case_image_resolution, c13_r4.case_canvas, c13_r4.case_image_ids)
         for k in range(run.n(4000, 40000)):
             adversarial = k % 5 == 0
             batch = [case(rng, adversarial)[:3] for case in cases]
@@ -242,12 +277,14 @@ class C13(PropCheck):
         cases += c13_embed.regression_unwritable_mode()
         cases += c13_svg.regression_par_inherited()
         cases += real.regression_background_round_zero_size()
+        cases += c13_r4.regression_image_resolution()
         return cases
 
     def finding_replays(self):
         docs.quiet()
         return {'grey16-embedded-as-rgb8': c13_embed.finding_grey16,
-                'background-no-repeat-axis-wraps': c13_docs.finding_no_repeat_axis_wraps}
+                'background-no-repeat-axis-wraps': c13_docs.finding_no_repeat_axis_wraps,
+                'image-orientation-not-inherited': c13_r4.finding_orientation_not_inherited}
 
     def replay(self, data):
         docs.quiet()
@@ -273,12 +310,28 @@ class C13(PropCheck):
                 if what:
                     return what
             return None
+        if meta.get('fn') == 'marker-document':
+            return c13_r4.judge_marker_document(c13_docs.revive(meta['marker_doc']))
+        if meta.get('fn') == 'image_resolution':
+            return c13_oracle.judge(*c13_r4.run_image_resolution(meta['text']))
+        if meta.get('fn') == 'get_image_from_uri.ids':
+            return c13_oracle.judge(*c13_r4.run_image_ids([tuple(r) for r in meta['requests']]))
+        if meta.get('fn') == 'canvas-document':
+            line, out = c13_r4.run_canvas_document(c13_docs.revive(meta['canvas_doc']))
+            return c13_oracle.judge(line, out) if line else f'canvas document: {out}'
+        if meta.get('fn') == 'docimg-resolution':
+            for line, out, m, _, _ in c13_r4.regression_image_resolution():
+                if m.get('html') == meta['html']:
+                    return c13_oracle.judge(line, out)
+            return None
         if meta.get('fn') == '_get_png_data':
             return c13_oracle.judge(*c13_embed.run_png_data(bytes(meta['file'])))
         if meta.get('fn') == 'RasterImage':
             return c13_oracle.judge(*c13_embed.replay_embed(meta))
         if 'line' in inp:
             out = c13_exec.execute(inp['line'])
+            if out is None:
+                out = c13_r4.execute(inp['line'])
             if out is None:
                 return None
             return c13_oracle.judge(inp['line'], out)
@@ -323,7 +376,7 @@ MANIFEST = {
             'lossy options, the dpi thumbnail path, SVG painting below the root transform, gradients, EXIF-driven '
             'from-image orientation, RasterImage ratio = inf. Document level uses dyadic lengths and power-of-two '
             'image sides. Known findings (partial theorems + witnesses): grey16-embedded-as-rgb8, '
-            'background-no-repeat-axis-wraps. Repaired and kept as regression cases + theorems (section '
+            'background-no-repeat-axis-wraps, image-orientation-not-inherited. Repaired and kept as regression cases + theorems (section '
             '`regressions`): abs-replaced-ratio-only-width, unwritable-mode-crash, svg-preserveaspectratio-inherited, '
-            'image-orientation-rotates-ccw, background-round-zero-size.',
+            'image-orientation-rotates-ccw, background-round-zero-size, image-resolution-zero-division (C07).',
 }
